@@ -5,6 +5,8 @@
 
 open Model
 
+exception Bad_request
+
 (* ---- conversions between OCaml ints and the extracted binary numbers ---- *)
 
 let rec pos_of_int (i : int) : positive =
@@ -29,6 +31,9 @@ let n_of_decimal (s : string) : n =
   !acc
 
 let rec nat_of_int (i : int) : nat = if i <= 0 then O else S (nat_of_int (i - 1))
+
+let nth (l : string list) (i : int) : string =
+  match List.nth_opt l i with Some x -> x | None -> raise Bad_request
 
 (* ---- hex / UTF-8 ---- *)
 
@@ -212,12 +217,136 @@ let view_of (a : string) (u : string) (h : string) (oids : string) : sview =
   { v_applied = a; v_unapplied = u; v_hidden = h;
     v_oidhex = (fun nm -> match List.assoc_opt nm tbl with Some o -> o | None -> []) }
 
+(* ---- scenarios: a stateful world driven by one command per line ---- *)
+
+let rec int_of_nat (x : nat) : int = match x with O -> 0 | S y -> 1 + int_of_nat y
+
+let rec z_of_int (i : int) : z =
+  if i = 0 then Z0 else if i > 0 then Zpos (pos_of_int i) else Zneg (pos_of_int (-i))
+
+let z_of_decimal (s : string) : z =
+  if String.length s > 0 && s.[0] = '-' then
+    (match n_of_decimal (String.sub s 1 (String.length s - 1)) with
+     | N0 -> Z0 | Npos p -> Zneg p)
+  else (match n_of_decimal s with N0 -> Z0 | Npos p -> Zpos p)
+
+let cur_world : world ref = ref (init_world [])
+
+let cells_of (s : string) : n list =
+  if s = "-" then [] else List.map n_of_decimal (split_char ',' s)
+
+let csv_ints (l : int list) = if l = [] then "-" else String.concat "," (List.map string_of_int l)
+
+let show_oids (l : oid list) = csv_ints (List.map int_of_nat l)
+
+let show_state (st : sstate) : string =
+  Printf.sprintf "prev=%s;head=%d;A=%s;U=%s;H=%s;P=%s"
+    (match st.s_prev with Some p -> string_of_int (int_of_nat p) | None -> "-")
+    (int_of_nat st.s_head)
+    (hexlist_of_strs st.s_applied) (hexlist_of_strs st.s_unapplied) (hexlist_of_strs st.s_hidden)
+    (if st.s_patches = [] then "-"
+     else String.concat "," (List.map (fun (nm, o) -> hex_of_str nm ^ "=" ^ string_of_int (int_of_nat o)) st.s_patches))
+
+let show_msg = function
+  | MOp -> "op"
+  | MUndo z -> "undo" ^ z_to_string z
+  | MRedo z -> "redo" ^ z_to_string z
+  | MGroup -> "group"
+
+let dump_world (w : world) : string =
+  let b = Buffer.create 1024 in
+  Buffer.add_string b
+    (Printf.sprintf "branch=%d stack=%s wt=%s unmerged=%d prefs=%s objs="
+       (int_of_nat w.w_branch)
+       (match w.w_stack with Some o -> string_of_int (int_of_nat o) | None -> "-")
+       (csv_ints (List.map int_of_n w.w_wt))
+       (if w.w_unmerged then 1 else 0)
+       (if w.w_prefs = [] then "-"
+        else String.concat "," (List.map (fun (nm, o) -> hex_of_str nm ^ "=" ^ string_of_int (int_of_nat o)) w.w_prefs)));
+  List.iteri
+    (fun i c ->
+      Buffer.add_string b
+        (Printf.sprintf "%d:p=%s:t=%s:m=%d:k=%s:s=%s|" i (show_oids c.c_parents)
+           (csv_ints (List.map int_of_n c.c_tree)) (int_of_n c.c_meta) (show_msg c.c_msg)
+           (match c.c_state with Some st -> show_state st | None -> "-")))
+    w.w_objs;
+  Buffer.contents b
+
+let opt_strs (s : string) : n list list option = if s = "_" then None else Some (strs_of_hexlist s)
+let opt_z (s : string) : z option = if s = "_" then None else Some (z_of_decimal s)
+let opt_n (s : string) : n option = if s = "_" then None else Some (n_of_decimal s)
+let has_flag (flags : string) (f : string) : bool = List.mem f (split_char ',' flags)
+let opt_conf (s : string) : bool option =
+  match s with "allow" -> Some true | "disallow" -> Some false | _ -> None
+
+let decode_cmd (f : string list) : cmd =
+  let a i = nth f i in
+  match a 0 with
+  | "init" -> CInit
+  | "new" -> CNew (str_of_hex (a 1), n_of_decimal (a 2), ascii_str ("x" ^ a 2 ^ " msg"))
+  | "refresh" -> CRefresh
+  | "push" ->
+      let fl = a 3 in
+      CPush (opt_strs (a 1), opt_z (a 2), has_flag fl "all", has_flag fl "reverse",
+             has_flag fl "noapply", has_flag fl "set-tree", has_flag fl "merged",
+             has_flag fl "keep", opt_conf (a 4))
+  | "pop" ->
+      let fl = a 3 in
+      CPop (opt_strs (a 1), opt_z (a 2), has_flag fl "all", has_flag fl "keep", has_flag fl "spill")
+  | "goto" ->
+      let fl = a 2 in
+      CGoto (str_of_hex (a 1), has_flag fl "keep", has_flag fl "merged", opt_conf (a 3))
+  | "float" ->
+      let fl = a 2 in
+      CFloat (strs_of_hexlist (a 1), has_flag fl "noapply", has_flag fl "keep")
+  | "sink" ->
+      let fl = a 3 in
+      let tgt =
+        match a 2 with
+        | "_" -> None
+        | t ->
+            let above = t.[0] = 'a' in
+            Some (above, str_of_hex (String.sub t 2 (String.length t - 2)))
+      in
+      CSink (opt_strs (a 1), tgt, has_flag fl "nopush", has_flag fl "keep")
+  | "delete" ->
+      let fl = a 2 in
+      CDelete (opt_strs (a 1), has_flag fl "top", has_flag fl "all", has_flag fl "applied",
+               has_flag fl "unapplied", has_flag fl "hidden", has_flag fl "spill", opt_conf (a 3))
+  | "hide" -> CHide (strs_of_hexlist (a 1))
+  | "unhide" -> CUnhide (strs_of_hexlist (a 1))
+  | "rename" -> CRename ((if a 1 = "_" then None else Some (str_of_hex (a 1))), str_of_hex (a 2))
+  | "commit" ->
+      let fl = a 3 in
+      CCommit (opt_strs (a 1), opt_n (a 2), has_flag fl "all", has_flag fl "allow-empty")
+  | "uncommit" -> CUncommit (opt_n (a 1), strs_of_hexlist (a 2))
+  | "clean" -> let fl = a 1 in CClean (has_flag fl "applied", has_flag fl "unapplied")
+  | "spill" -> CSpill
+  | "undo" -> CUndo (z_of_decimal (a 1), has_flag (a 2) "hard")
+  | "redo" -> CRedo (n_of_decimal (a 1), has_flag (a 2) "hard")
+  | "reset" ->
+      CReset ((if a 1 = "_" then None else Some (nat_of_int (int_of_string (a 1)))),
+              opt_strs (a 2), has_flag (a 3) "hard")
+  | "repair" -> CRepair
+  | "logclear" -> CLogClear
+  | "inspect" -> CInspect
+  | "gedit" -> GEdit (nat_of_int (int_of_string (a 1)), n_of_decimal (a 2))
+  | "gcommit" -> GCommit (n_of_decimal (a 1), str_of_hex (a 2))
+  | "gamend" -> GAmend (n_of_decimal (a 1), str_of_hex (a 2))
+  | "gmerge" -> GMerge (n_of_decimal (a 1))
+  | "greset" -> (
+      match a 1 with
+      | "patch" -> GResetHard (TPatch (str_of_hex (a 2)))
+      | "base" -> GResetHard (TBaseAncestor (nat_of_int (int_of_string (a 2))))
+      | "head" -> GResetHard (THeadAncestor (nat_of_int (int_of_string (a 2))))
+      | _ -> raise Bad_request)
+  | _ -> raise Bad_request
+
+let show_exit = function X0 -> "0" | X1 -> "1" | X2 -> "2" | X3 -> "3" | XPanic -> "panic"
+
 (* ---- request evaluation ---- *)
 
-exception Bad_request
 
-let nth (l : string list) (i : int) : string =
-  match List.nth_opt l i with Some x -> x | None -> raise Bad_request
 
 let release_mode = ref false
 
@@ -290,6 +419,14 @@ let eval (fields : string list) : string =
           | ROk l -> "ok " ^ hexlist_of_strs l
           | RErr e -> "err " ^ lerr_name e
           | RPanic -> "PANIC"))
+  | "world" ->
+      cur_world := init_world (cells_of (nth fields 1));
+      "exit=0 " ^ dump_world !cur_world
+  | "step" ->
+      let c = decode_cmd (List.tl fields) in
+      let w', x = step lower_s !cur_world c in
+      cur_world := w';
+      "exit=" ^ show_exit x ^ " " ^ dump_world w'
   | "gitok" -> if git_component_ok (str_of_hex (nth fields 1)) then "true" else "false"
   | "pname" -> (
       match patch_name_p (str_of_hex (nth fields 1)) with
